@@ -1,12 +1,33 @@
 """C09  Ring buffer / moving window behaves as a sliding time-indexed map.
 
-Two structural clauses are decided (DESIGN.md §2 C09):
+Structural clauses decided (DESIGN.md §2 C09, §7.2):
   C09.NORM   grid-alignment typestate: every datetime is `aligned` (on the slot grid) or `raw`;
-             fields, gap boundaries, private slot-arithmetic parameters and the operands of the
-             emptiness guard before slot-index computation must be aligned.
-  C09.VALID  validate-before-mutate in update(), clamp-before-index and fill-before-return in
-             window(), and a two-sided range guard before every direct buffer read in
-             MovingWindow.at (sibling rule: the datetime branch has it, the int branch must too).
+             fields, gap boundaries, the datetime arguments of private methods that need them aligned
+             (the anchored slot-arithmetic methods always; any other private method iff one of its own
+             sinks fails when it is read with raw arguments), dividends of floor-divisions by the
+             sampling period, and the operands of the emptiness guard before the slot-index
+             computation must be aligned.  Methods are read with simple private helpers spliced in;
+             the qualifier returned by other private helpers is inferred from their body.
+  C09.VALID  decided per symbolic path (sa/props/_c09_util.py: ordered paths = sympath paths that also
+             record *where* each atomic condition was decided; helpers spliced in, locals substituted):
+             update(): every write of the time bounds / data / gap list (direct, or through a method of
+             `self` whose transitive mutation summary touches them) happens after `T < _timestamp_oldest`
+             was decided false or the buffer was found empty (sentinel bound), and every path on which
+             T is too old for a non-empty window raises IndexError without any such write;
+             window(): the datetimes whose slot positions are passed to _wrapped_buffer_window are
+             bounded below by oldest_timestamp resp. above by newest_timestamp + period (max/min in any
+             argument order, through normalize_timestamp, or entailed by the path conditions), the path
+             has established start < end on exactly those values before the first index computation,
+             and a returning path with fill_value not None returns _fill_gaps(<that data>, fill_value,
+             <that start>, self.gaps);
+             MovingWindow.at: every `self._buffer[...]` read is at to_internal_index(K) with
+             oldest <= K <= newest established (datetime key) or at get_timestamp(J) with
+             -count_covered() <= J < count_covered() established (index key), on a non-empty buffer, and
+             every path that finds such a position out of range raises IndexError.
+  C09.GAP    every Gap built by _update_gaps starts no later than the first unwritten slot; a missing
+             sample that is not inside a gap records one; _fill_gaps stores only into slices clamped to
+             [0, len(data)] (loop body walked with the locals defined before the loop substituted in).
+  C09.IDX    slot number = round((normalised T - alignment origin) / sampling period) modulo capacity.
 The gap-list/data consistency over all histories is NOT decided (inductive data-structure
 invariant, out of reach for this family).
 """
@@ -15,11 +36,11 @@ from __future__ import annotations
 import ast
 from typing import Any
 
-from ..engine.normalize import inline_helpers, positional
+from ..engine.normalize import ANCHOR_NAMES, inline_helpers, positional
 from ..engine.report import AnalysisError, Run
-from ..engine.resolver import FuncInfo, Program, body_walk, walk_no_nested
+from ..engine.resolver import FuncInfo, Program, walk_no_nested
 from ..engine.sympath import Path
-from ..engine.util import find_calls, method_call, u
+from ..engine.util import method_call, u
 from ._c09_util import (
     MutationSummary, decided, entails_le, entails_lt, first_call, func_params, index_of, loop_paths,
     lower_bounded, ordered_paths, self_attr_root, subscripts_of, upper_bounded,
@@ -180,6 +201,10 @@ class Typestate:
                             self.sinks.append((
                                 "ARG", n, self.q(arg, env),
                                 f"self.{n.func.attr}(... {u(arg)} ...) [parameter {idx}]"))
+            elif isinstance(n, ast.BinOp) and isinstance(n.op, (ast.FloorDiv, ast.Mod)) \
+                    and self.q(n.right, env) == P:
+                ql = self.q(n.left, env)
+                self.sinks.append(("DIV", n, A if ql == P else ql, f"{u(n)[:80]} [dividend: {ql}]"))
 
     def store(self, tgt: ast.AST, val: str, env: dict[str, str], node: ast.AST) -> None:
         if isinstance(tgt, ast.Name):
@@ -300,11 +325,19 @@ def check_norm(run: Run, prog: Program) -> None:
             if idx:
                 PRIVATE_ALIGNED[name] = idx
                 PRIVATE_PARAMS[name] = func_params(m.node)
-    if not {"_fill_gaps", "_update_gaps", "_remove_gap"} <= set(PRIVATE_ALIGNED):
+    strict = {"_fill_gaps", "_update_gaps", "_remove_gap"}
+    if not strict <= set(PRIVATE_ALIGNED):
         raise AnalysisError(f"C09.NORM: private slot-arithmetic methods moved: {sorted(PRIVATE_ALIGNED)}")
 
     memo: dict[str, str] = {}
     stack: list[str] = []
+    trees: dict[str, FuncInfo] = {}
+
+    def tree(m: FuncInfo) -> FuncInfo:
+        # simple private helpers are read at their call site (with the actual arguments)
+        if m.name not in trees:
+            trees[m.name] = FuncInfo(m.name, m.module, inline_helpers(prog, m), m.cls, m.outer)
+        return trees[m.name]
 
     def ret_qual(name: str) -> str:
         """Qualifier of what a private method returns, its datetime parameters being aligned (the ARG
@@ -315,13 +348,30 @@ def check_norm(run: Run, prog: Program) -> None:
         if callee is None or name in stack:
             return Q
         stack.append(name)
-        sub = Typestate(run, callee, {p for _, p in _datetime_params(callee)}, set(), ret_qual=ret_qual)
+        dts = {p for _, p in _datetime_params(callee)}
+        sub = Typestate(run, tree(callee), dts if name in PRIVATE_ALIGNED else set(),
+                        set() if name in PRIVATE_ALIGNED else dts, ret_qual=ret_qual)
         stack.pop()
         out = N
         for _node, ql in sub.returns:
             out = join(out, ql)
         memo[name] = out if sub.returns else Q
         return memo[name]
+
+    # A private method that is not one of the anchored slot-arithmetic methods only *needs* aligned datetime
+    # arguments if, read with raw ones, one of its own sinks fails (e.g. a new helper that clamps a raw query
+    # bound needs none; one that stores its argument into a time bound does).  Greatest fixpoint downwards.
+    changed = True
+    while changed:
+        changed = False
+        for name in sorted(set(PRIVATE_ALIGNED) - strict - ANCHOR_NAMES):
+            m = cls.methods[name]
+            memo.clear()
+            trial = Typestate(run, tree(m), set(), {p for _, p in _datetime_params(m)}, ret_qual=ret_qual)
+            if all(qual == A for _w, _n, qual, _t in trial.sinks):
+                del PRIVATE_ALIGNED[name]
+                changed = True
+    memo.clear()
 
     n_sinks = 0
     for name, m in cls.methods.items():
@@ -330,8 +380,7 @@ def check_norm(run: Run, prog: Program) -> None:
         run.analysed(m.qual)
         dps = _datetime_params(m)
         private = name in PRIVATE_ALIGNED
-        # simple private helpers are read at their call site (with the actual arguments)
-        spliced = FuncInfo(m.name, m.module, inline_helpers(prog, m), m.cls, m.outer)
+        spliced = tree(m)
         ts = Typestate(run, spliced,
                        aligned_params={p for _, p in dps} if private else set(),
                        raw_params=set() if private else {p for _, p in dps}, ret_qual=ret_qual)
@@ -339,7 +388,10 @@ def check_norm(run: Run, prog: Program) -> None:
             n_sinks += 1
             rule = "C09.NORM"
             inst = f"{m.qual}: {what} {text}"
-            if what == "ARG":
+            if what == "DIV":
+                msg = ("floor-division slot arithmetic on a time distance that is not provably a whole number "
+                       "of sampling periods (results shift by one slot)")
+            elif what == "ARG":
                 msg = ("a datetime that is not provably on the slot grid is passed to a private "
                        "method doing floor-division slot arithmetic on it (results shift by one slot)")
             elif what == "FIELD":
@@ -886,8 +938,12 @@ CONTROLS = [
 ]
 
 
-def _control_too_old(src: str) -> str | None:
-    return None
+def _rules_for(expect: str) -> Any:
+    """The part of the rule set a control of that rule has to be re-run with (runtime only)."""
+    def norm(run: Run, prog: Program) -> None:
+        check_norm(run, prog)
+        check_valid_window(run, prog)   # the emptiness-guard operands are a C09.NORM obligation decided there
+    return {"C09.NORM": norm, "C09.VALID": check_valid, "C09.GAP": check_gaps, "C09.IDX": check_idx}[expect]
 
 
 def run_rules(run: Run, prog: Program) -> None:
@@ -915,7 +971,7 @@ def check(run: Run, prog: Program, tier: str) -> str:
     run.floor("C09.GAP", 6)
     from ..engine.controls import run_controls
 
-    run_controls(run, CONTROLS, run_rules, tier)
+    run_controls(run, CONTROLS, run_rules, tier, select=_rules_for)
     run.assume("aligned ± k·sampling_period is aligned; datetime arithmetic is exact (timedelta "
                "microsecond resolution)")
     run.undecided("consistency of the incrementally maintained gap list / count_valid with the "
